@@ -38,7 +38,7 @@ theorem sim_encode_all (fuel : Nat) :
     · intro d pv
       cases d <;> unfold encodeDop <;>
         repeat (first
-          | exact ihDop _ _ | exact ihItems _ _ _ | exact ihStatic _ _ _ _ | exact ihComp _ _
+          | exact ihDop _ _ | exact ihItems _ _ _ | exact ihStatic _ _ _ _ | exact ihComp _ _ | exact ihParam _ _
           | exact sim_encodeDct _ _ | exact sim_emplaceBytes _ _
           | sim_step | split | dsimp only
           | (simp only [Nat.succ_eq_add_one, Nat.add_right_cancel_iff] at *; subst_vars))
@@ -179,6 +179,7 @@ theorem sim_decode_all (fuel : Nat) :
         unfold decodeDop
         repeat (first
           | exact ihDop _ hsd
+          | exact ihParam _ (by simp [Param.markerFree, PKind.markerFree, hsd])
           | exact ihDop _ (caseOfKey_markerFree _ _ hcs _ (by assumption) _ (by assumption))
           | exact ihDop _ (by simp_all)
           | sim_step | split | dsimp only
